@@ -102,6 +102,6 @@ _register()
 
 
 # results of the transformations are objects too: their invariant clauses belong to this property as well
-from . import C07 as _C07, C08 as _C08, C09 as _C09  # noqa: E402
-for _m in (_C07, _C08, _C09):
-    REG.include(_m.REG, only_clauses=["*/wf/*"], exclude="*refusal*")
+from . import C05 as _C05, C06 as _C06, C07 as _C07, C08 as _C08, C09 as _C09, C12 as _C12  # noqa: E402
+for _m in (_C05, _C06, _C07, _C08, _C09, _C12):
+    REG.include(_m.REG, only_clauses=["*/wf/*", "*/batch/*"], exclude="*refusal*")
